@@ -88,7 +88,7 @@ def try_model(ex, st, callee, args):
         return sx.UNIT
 
     # ---------------------------------------------------------------- f64 restricted to exact integers (symex.Flt)
-    m = re.match(r"^core::f64::<impl f64>::(\w+)$", c)
+    m = re.match(r"^(?:core|std)::f64::<impl f64>::(\w+)$", c)
     if m and args and isinstance(ex.deref(st, args[0]), sx.Flt):
         meth = m.group(1)
         x = ex.deref(st, args[0]).t
@@ -165,6 +165,39 @@ def try_model(ex, st, callee, args):
         item = ex.temp_ref(st, it.items[it.pos])
         ex.write_through(st, args[0], sx.SliceIter(it.items, it.n, it.pos + 1))
         return _opt(some, item)
+    if re.match(r"^<(?:alloc::vec::)?Vec<.*> as (?:core::ops::)?Deref>::deref$", c) and isinstance(ex.deref(st, args[0]), sx.VecVal):
+        return ex.temp_ref(st, ex.deref(st, args[0]))
+    if re.match(r"^core::slice::<impl \[.*\]>::iter$", c) and isinstance(ex.deref(st, args[0]), sx.VecVal):
+        v = ex.deref(st, args[0])
+        return sx.SliceIter(v.items, v.n, 0)
+    if re.match(r"^<(?:core::slice::)?Iter<.*> as (?:core::iter::)?Iterator>::enumerate$", c) and isinstance(ex.deref(st, args[0]), sx.SliceIter):
+        it = ex.deref(st, args[0])
+        return sx.SliceIter(it.items, it.n, it.pos, enumerate=True)
+    if re.match(r"^<Enumerate<(?:core::slice::)?Iter<.*>> as (?:core::iter::)?Iterator>::find$", c) and isinstance(ex.deref(st, args[0]), sx.SliceIter):
+        # first (index, &item) for which the predicate closure holds; the predicate is executed from its MIR body per item
+        it = ex.deref(st, args[0])
+        if not (isinstance(it.n, int) and it.n == len(it.items) and it.enumerate):
+            raise sx.NotEncodable("Iterator::find over a slice of symbolic length")
+        hits = []
+        for k in range(it.pos, len(it.items)):
+            item = sx.Agg([sx.Int(k - it.pos, "usize"), ex.temp_ref(st, it.items[k])])
+            hit = ex.call_closure(st, callee, ex.temp_ref(st, sx.UNIT), [ex.temp_ref(st, item)])
+            if not isinstance(hit, sx.Bool):
+                raise sx.NotEncodable("find predicate result %r" % (hit,))
+            hits.append(hit.t)
+        if not hits:
+            return _none()
+        # index and value of the first hit as merged *values* (references to distinct items cannot be merged)
+        idx, val = len(hits) - 1, it.items[-1]
+        for k in range(len(hits) - 2, -1, -1):
+            if is_c(hits[k]):
+                if hits[k]:
+                    idx, val = k, it.items[it.pos + k]
+                continue
+            idx = ite(hits[k], k, idx)
+            val = sx.merge(hits[k], it.items[it.pos + k], val)
+        found = or_(*hits)
+        return _opt(found, sx.Agg([sx.Int(idx, "usize"), ex.temp_ref(st, val)]))
     if re.match(r"^<(?:alloc::string::)?String as (?:core::ops::)?Deref>::deref$", c):
         return sx.Opaque("str")
     if re.match(r"^<(?:builtins::core::calendar::)?Calendar as (?:core::default::)?Default>::default$", c):
@@ -624,6 +657,12 @@ def _option_method(ex, st, meth, args):
         if 1 in inner.v:
             v[1] = inner.v[1]
         return sx.Enum(ite(and_(is_some, eq(inner.d, 1)), 1, 0), v, "Option")
+    if meth in ("as_ref", "as_mut"):
+        # Option<&T> over the same payload (a reference into a by-value payload is the payload in this value model)
+        v = {0: []}
+        if payload is not None:
+            v[1] = [ex.temp_ref(st, payload)]
+        return sx.Enum(o.d, v, "Option")
     if meth == "unwrap_or":
         d = args[1]
         if payload is None:
@@ -678,6 +717,9 @@ def _option_method(ex, st, meth, args):
 
 def _result_method(ex, st, meth, args):
     r = ex.deref(st, args[0])
+    if isinstance(r, sx.Opaque) and r.tag.startswith("ret:") and meth in ("map", "map_err", "and_then"):
+        # post-processing of an uninterpreted call's result (wiring checks): a different, still uninterpreted value
+        return sx.Opaque("post:%s:%s" % (meth, r.tag))
     if not isinstance(r, sx.Enum):
         raise sx.NotEncodable("Result::%s on %r" % (meth, r))
     is_ok = eq(r.d, 0)
@@ -695,6 +737,12 @@ def _result_method(ex, st, meth, args):
         if 0 in r.v:
             v[1] = [r.v[0][0]]
         return sx.Enum(ite(is_ok, 1, 0), v, "Option")
+    if meth == "map" and len(args) == 2 and re.search(r"\{(?:core::option::)?Option::<[^{}]*>::Some\}>$", (LAST_CALLEE[0] or "").strip()):
+        # Result::map(Some)
+        v = dict(r.v)
+        if 0 in v:
+            v[0] = [_some(r.v[0][0])]
+        return sx.Enum(r.d, v, "Result")
     if meth == "map" and len(args) == 2:
         v = dict(r.v)
         if 0 in v:
